@@ -10,6 +10,8 @@ bug-compatible, of the string surgery in
   * `expressions/set.py`         `AttributeSet.rebuild`, `_render_bindings`
   * `expressions/binding.py`     `Binding.rebuild`
   * `expressions/source_code.py` `NixSourceCode.rebuild`
+  * `expressions/parenthesis.py` `Parenthesis.rebuild`
+  * `expressions/function/call.py` `FunctionCall.rebuild`
 
 `NixList.multiline` is a `Bool`: `from_cst` always sets it, so `_auto_multiline` returns it (the
 inference branch is reachable only for lists built programmatically). `has_scope()` is false for
@@ -70,6 +72,22 @@ def bindValIndent (valueGap : Text) (valueBefore : List Trivia) (indent : Nat) :
   else if layout.onNewline then layout.indent.getD (indent + 2)
   else indent
 
+/-- `"\n\n" if blank_line else "\n"` -/
+def nlSep (blank : Bool) : Text := if blank then ['\n', '\n'] else ['\n']
+
+/-- `FunctionCall.rebuild`: the comments after the function, appended to `function_str` -/
+def fnAfterStr (s : Text) : List Comment → Nat → Text
+  | [], _ => s
+  | c :: rest, indent =>
+    if c.inline then fnAfterStr ((if s.getLast? == some ' ' then s else s ++ [' ']) ++ c.rebuild 0) rest indent
+    else fnAfterStr ((if endsWithNL s then s else s ++ ['\n']) ++ c.rebuild indent) rest indent
+
+/-- `args_str and not args_str[0].isspace()` -/
+def startsNonSpace (s : Text) : Bool :=
+  match s with
+  | [] => false
+  | c :: _ => !isPyWhitespace c
+
 mutual
 /-- `expr.rebuild(indent, inline)`; with `noAfter` the expression is rendered as
     `expr.model_copy(update={"after": []})` (what `Binding.rebuild` does to its value) -/
@@ -123,6 +141,28 @@ def Expr.rebuildA : Expr → Bool → Nat → Bool → Text
     let core := name ++ [' ', '='] ++ (if onNewline then ['\n'] else [' ']) ++ rstripNL valueStr ++ [';']
     let rebuilt := formatTrivia before indent ++ (if inline then [] else spaces indent) ++ core
     bindingTail rebuilt (value.after ++ after) indent
+  | .paren value lg tg lb tb before after, noAfter, indent, inline =>
+    let after := if noAfter then [] else after
+    -- leading_layout / trailing_layout: `layout_from_gap(gap)` with `blank_line` replaced by the flag.
+    -- (`multiline = leading.on_newline or trailing.on_newline`; when it is false both branches below
+    -- are the inline rendering, which is what the Python's `else` branch writes.)
+    let ll := Layout.fromGap lg
+    let tl := Layout.fromGap tg
+    let inner :=
+      if ll.onNewline then nlSep lb ++ value.rebuildA false (ll.indent.getD (indent + 2)) false
+      else value.rebuildA false indent true
+    let inner := if tl.onNewline then inner ++ nlSep tb ++ spaces indent else inner
+    addTrivia before after ('(' :: inner ++ [')']) indent inline
+  | .app name arg argGap fnAfter before after, noAfter, indent, inline =>
+    let after := if noAfter then [] else after
+    let fnStr := fnAfterStr (name.rebuildA false indent true) fnAfter indent
+    let layout := Layout.fromGap argGap
+    let argIndent := if layout.onNewline then layout.indent.getD (indent + 2) else indent
+    -- (the trim of `argument.before` is applied by `appFromCst`)
+    let argsStr := arg.rebuildA false argIndent (!layout.onNewline)
+    let argsStr := if layout.onNewline && startsNonSpace argsStr then spaces argIndent ++ argsStr else argsStr
+    let sep : Text := if layout.blankLine then ['\n', '\n'] else if layout.onNewline then ['\n'] else [' ']
+    addTrivia before after (fnStr ++ sep ++ argsStr) indent inline
 /-- `[item.rebuild(indent, inline) for item in items]` -/
 def rebuildAll : List Expr → Nat → Bool → List Text
   | [], _, _ => []
@@ -280,6 +320,15 @@ def bindingTailP (afterItems : List Trivia) (indent : Nat) : List FP :=
 
 def recP (recursive : Bool) : List FP := if recursive then [.tok ['r', 'e', 'c'], .ws [' ']] else []
 
+/-- `fnAfterStr` on pieces -/
+def fnAfterP (acc : List FP) : List Comment → Nat → List FP
+  | [], _ => acc
+  | c :: rest, indent =>
+    if c.inline then
+      fnAfterP (acc ++ (if (concat acc).getLast? == some ' ' then [] else [.ws [' ']]) ++ cmtP c 0) rest indent
+    else
+      fnAfterP (acc ++ (if endsWithNL (concat acc) then [] else [.ws ['\n']]) ++ cmtP c indent) rest indent
+
 mutual
 def Expr.rebuildAP : Expr → Bool → Nat → Bool → List FP
   | .leaf k t before after, noAfter, indent, inline =>
@@ -329,6 +378,24 @@ def Expr.rebuildAP : Expr → Bool → Nat → Bool → List FP
     fmtP before indent ++ indentP indent inline ++
       [.tok name, .ws [' '], .tok ['='], .ws (if onNewline then ['\n'] else [' '])] ++ rstripNLP valueP ++
       [.tok [';']] ++ bindingTailP (value.after ++ after) indent
+  | .paren value lg tg lb tb before after, noAfter, indent, inline =>
+    let after := if noAfter then [] else after
+    let ll := Layout.fromGap lg
+    let tl := Layout.fromGap tg
+    let inner :=
+      if ll.onNewline then .ws (nlSep lb) :: value.rebuildAP false (ll.indent.getD (indent + 2)) false
+      else value.rebuildAP false indent true
+    let inner := if tl.onNewline then inner ++ [.ws (nlSep tb ++ spaces indent)] else inner
+    addTriviaP before after (.tok ['('] :: inner ++ [.tok [')']]) indent inline
+  | .app name arg argGap fnAfter before after, noAfter, indent, inline =>
+    let after := if noAfter then [] else after
+    let fnP := fnAfterP (name.rebuildAP false indent true) fnAfter indent
+    let layout := Layout.fromGap argGap
+    let argIndent := if layout.onNewline then layout.indent.getD (indent + 2) else indent
+    let argsP := arg.rebuildAP false argIndent (!layout.onNewline)
+    let argsP := if layout.onNewline && startsNonSpace (concat argsP) then .ws (spaces argIndent) :: argsP else argsP
+    let sep : Text := if layout.blankLine then ['\n', '\n'] else if layout.onNewline then ['\n'] else [' ']
+    addTriviaP before after (fnP ++ .ws sep :: argsP) indent inline
 def rebuildAllP : List Expr → Nat → Bool → List (List FP)
   | [], _, _ => []
   | e :: rest, indent, inline => e.rebuildAP false indent inline :: rebuildAllP rest indent inline
